@@ -39,7 +39,7 @@ def _alarm(signum, frame):
 
 
 def plan(tier):
-    return 20000 if tier == "quick" else 400000
+    return 22000 if tier == "quick" else 400000
 
 
 def boot_blob(n, sig=True):
@@ -490,21 +490,32 @@ def run_fault(k, cs, counters, sweep=None):
     return vio, desc, res, inconclusive
 
 
+_flat = []
+
+
+def flat_sweeps():
+    """The deterministic sweeps of all seed images as one list [(seed image, sweep)], interleaved so
+    that every image's first entries come first."""
+    if not _flat:
+        lists = [sweep_list(k) for k in range(NSEEDS)]
+        for j in range(max(len(l) for l in lists)):
+            for k in range(NSEEDS):
+                if j < len(lists[k]):
+                    _flat.append((k, lists[k][j]))
+    return _flat
+
+
 def run_case(i, seed_, tier):
     counters = {}
     k = i % NSEEDS
     cs = seed_ * 10000019 + i
     sweep = None
-    nsweep = 13000 if tier == 'quick' else 60000
-    if i < nsweep:
-        lst = sweep_list(k)
-        if lst:
-            j = i // NSEEDS + seed_ * 997
-            if tier != 'quick' and i // NSEEDS >= len(lst):
-                lst = None     # the whole enumeration is done: random faults from here on
-            else:
-                sweep = lst[j % len(lst)]
-                counters['sweep_cases'] = 1
+    flat = flat_sweeps()
+    if i < len(flat):
+        # the whole enumeration comes first, in both tiers; random faults from there on
+        k, sweep = flat[i]
+        counters['sweep_cases'] = 1
+    counters['max:sweep_entries'] = len(flat)
     vio, desc, res, inconclusive = run_fault(k, cs, counters, sweep)
     shape = '%d/%s/%s/%s' % (k, desc['fault'], desc.get('structure'), desc.get('value', ''))
     nt = desc['fault'] != 'random' or True
